@@ -80,6 +80,9 @@ def build_fs(world):
             if rel in (world.get('missing', {}).get(root) or []):
                 continue
             files[root + '/' + rel] = text
+    for path, dmg in sorted((world.get('damage') or {}).items()):
+        if path in files:
+            files[path] = damaged(files[path], dmg)
     fs = SimFS(files, env=world.get('env') or {}, cwd='/sim/cwd')
     fs.faults = [dict(f) for f in world.get('faults') or []]
     if world.get('install'):
@@ -90,6 +93,20 @@ def build_fs(world):
                                    if not r.startswith('/sim/')] + \
         [core.pgradd_dir()]
     return fs
+
+
+def damaged(text, dmg):
+    """A copy that went wrong: one word of the k-th pattern garbled, or the
+    file torn off in the middle of a line."""
+    if dmg['kind'] == 'garble':
+        parts = text.split('labeled')
+        k = 1 + dmg.get('at', 0) % max(1, len(parts) - 1)
+        return 'labeled'.join(parts[:k]) + 'lab@eled' + \
+            'labeled'.join(parts[k:]) if len(parts) > 1 else text[:-7]
+    cut = int(len(text) * (0.3 + 0.4 * (dmg.get('at', 0) % 7) / 7.0))
+    while cut < len(text) and text[cut] == '\n':
+        cut += 1
+    return text[:cut]
 
 
 def opened_roots(fs, roots):
@@ -316,7 +333,8 @@ class Run(object):
                  'faults': spec.get('faults') or [],
                  'missing': spec.get('missing') or {},
                  'install': spec.get('install'),
-                 'register_demo': spec.get('register_demo')}
+                 'register_demo': spec.get('register_demo'),
+                 'damage': dict(spec.get('damage') or {})}
         self.bundled = spec['install'] + '/data' if spec.get('install') \
             else bundled_dir()
         env = dict(world['env'])
@@ -325,10 +343,14 @@ class Run(object):
             if life.get('clear_faults'):
                 world['faults'] = []
                 world['missing'] = {}
+                world['damage'] = {}
             res = run_life(world, life['ops'])
             self.stats['lives'] += 1
             resolved = None          # model: directory of this lifetime
             cur_env = dict(env)
+            cwd = '/sim/cwd'
+            first_outcome = {}
+            steady = all(f.get('sticky') for f in world.get('faults') or [])
             for op, out in zip(life['ops'], res['outs']):
                 self.stats['ops'] += 1
                 if op['op'] == 'setenv':
@@ -340,9 +362,32 @@ class Run(object):
                     continue
                 if op['op'] == 'chdir':
                     self.log.add('chdir', life=li, dir=op['dir'])
+                    cwd = op['dir']
                     continue
                 self.stats['loads'] += 1
                 self.check_load(op, out, world, cur_env, resolved, li)
+                if steady:
+                    # the same load again, in the same process, with the same
+                    # disk, environment and current directory, ends the same
+                    # way (whatever that way is: a damaged copy may be
+                    # refused or not, but not refused once and accepted next)
+                    key = core.dumps([op['op'], op['lib'], op.get('root'),
+                                      op.get('rel'), cur_env.get(ENVVAR), cwd,
+                                      resolved is None])
+                    now = ['ok', out['digest']] if 'ok' in out \
+                        else ['exc', out.get('exc')]
+                    if key in first_outcome and first_outcome[key] != now:
+                        self.viol('repeat-consistency', 'differs',
+                                  'same-load-repeated-ends-differently|%s'
+                                  % op['op'],
+                                  {'lib': op['lib'], 'op': op,
+                                   'first': first_outcome[key][:1] +
+                                   [str(first_outcome[key][1])[:16]],
+                                   'now': now[:1] + [str(now[1])[:16]]})
+                    first_outcome.setdefault(key, now)
+                    if len(first_outcome) and key in first_outcome and \
+                            first_outcome[key] is not now:
+                        self.probe('same_load_repeated_in_one_process')
                 if op['op'] == 'load_name' and resolved is None and \
                         'ok' in out and out.get('roots'):
                     resolved = out['roots'][0]
@@ -384,6 +429,15 @@ class Run(object):
             may_fail = False
             want = op['root']
             first = True
+        if want is not None and any(
+                want + '/' + rel in (world.get('damage') or {})
+                for rel in closure_files(lib)):
+            # a file this load needs was damaged in the copy: being refused
+            # and being read as whatever is left are both acceptable; only
+            # the repeat-consistency oracle (in run) speaks about such loads
+            self.probe('load_from_damaged_copy_' +
+                       ('accepted' if 'ok' in out else 'refused'))
+            return
         if 'ok' in out:
             self.lib_digests[lib] = out['digest']
             ref = self.ref_digest(lib)
@@ -523,6 +577,45 @@ def matrix_specs():
                   'env': {ENVVAR: ''}, 'lives': [{'ops': [
                       {'op': 'load_name', 'lib': small[0]},
                       {'op': 'load_name', 'lib': small[1]}]}]})
+    # a copy that went wrong (one pattern of a scheme garbled, a data file
+    # torn): loaded twice in one process, then again after a restart with
+    # the copy repaired
+    for i, (lib, rel, kind) in enumerate((
+            (small[0], 'scheme.yaml', 'garble'),
+            (small[1], 'scheme.yaml', 'garble'),
+            ('BensonGA', 'scheme.yaml', 'garble'),
+            (small[2], 'surface.yaml', 'torn'),
+            ('BensonGA', 'gas_benson/oxygenates.yaml', 'torn'))):
+        specs.append({'id': 'matrix-damaged-%d' % i, 'roots': [RELOC[0]],
+                      'env': {ENVVAR: RELOC[0]},
+                      'damage': {RELOC[0] + '/' + lib + '/' + rel:
+                                 {'kind': kind, 'at': i}},
+                      'lives': [
+                          {'ops': [{'op': 'load_name', 'lib': lib},
+                                   {'op': 'load_name', 'lib': lib},
+                                   {'op': 'load_path', 'lib': lib,
+                                    'root': RELOC[0]},
+                                   {'op': 'load_name', 'lib': lib},
+                                   {'op': 'load_name', 'lib': small[3]}]},
+                          {'clear_faults': True,
+                           'ops': [{'op': 'load_name', 'lib': lib}]}]})
+    # polling: one file of a copy is not there (yet); the same load fails
+    # again and again; the other libraries of that copy load as ever
+    for lib, rel, n in (('BensonGA', 'gas_benson/strain.yaml', 4),
+                        ('PPY', 'gas_benson/extra.yaml', 8),
+                        (small[0], 'surface.yaml', 40)):
+        others = [l for l in small if l != lib][:2]
+        specs.append({'id': 'matrix-poll-%s-%d' % (lib, n),
+                      'roots': [RELOC[0]], 'env': {ENVVAR: RELOC[0]},
+                      'missing': {RELOC[0]: [lib + '/' + rel]},
+                      'lives': [{'ops': [{'op': 'load_name', 'lib': lib}
+                                         for _ in range(n)] + [
+                          {'op': 'load_name', 'lib': others[0]},
+                          {'op': 'load_path', 'lib': others[1],
+                           'root': RELOC[0]},
+                          {'op': 'load_path', 'lib': 'BensonGA'
+                           if lib != 'BensonGA' else 'PPY',
+                           'root': RELOC[0]}]}]})
     # one more property-set type registered before loading
     for lib in small[:2] + ['BensonGA']:
         specs.append({'id': 'matrix-extraset-%s' % lib,
